@@ -3,32 +3,11 @@
 //!   psc-verif <Cxx> --replay <file>
 //! Exit 0 = property held on everything explored; 1 = VIOLATION line(s) printed; 2 = inconclusive.
 
-mod c01;
-mod c02;
-mod c03;
-mod c04;
-mod c07;
-mod c08;
-mod c14;
-mod c18;
-mod c19;
-mod c11;
-mod c12;
-mod c13;
-mod c15;
-mod c16;
-mod c06;
-mod alloc;
-mod c09;
-mod c10;
-mod common;
-mod programs;
-mod worker;
 
-use common::*;
+use psc_checks::{common::*, *};
 
 #[global_allocator]
-static GLOBAL: alloc::Counting = alloc::Counting;
+static GLOBAL: psc_checks::alloc::Counting = psc_checks::alloc::Counting;
 use psc_model::{
 	runner::{install_quiet_panic_hook, run_tape, CheckFn},
 	serde_json::Value,
@@ -76,6 +55,8 @@ fn run_property(ctx: &Ctx) -> Option<(Level, Report)> {
 		"C06" => c06::run(ctx),
 		"C10" => c10::run(ctx),
 		"C09" => c09::run(ctx),
+		"C05" => programs::run_c05(ctx),
+		"C17" => programs::run_c17(ctx),
 		_ => return None,
 	})
 }
@@ -93,6 +74,7 @@ fn replay_direct(ctx: &Ctx, doc: &Value) -> Option<Result<(), Violation>> {
 	match ctx.property {
 		"C03" => c03::replay_direct(ctx, doc),
 		"C04" => c04::replay_direct(ctx, doc),
+		"C05" | "C13" | "C17" => programs::replay_program(ctx, doc),
 		_ => None,
 	}
 }
